@@ -7,8 +7,9 @@ from harness import parse_common as PC
 from harness.driver import Driver, DriverError
 
 PID = 'C07'
-THEOREMS = ['PyDBML.C07.accepts_only_whole_input', 'PyDBML.C07.stringEnd_ok', 'PyDBML.C07.advance_suffix', 'PyDBML.C07.skipWs_suffix']
-MODULES = ['PyDBMLProofs.Props.C07']
+THEOREMS = ['PyDBML.C07.accepts_only_whole_input', 'PyDBML.C07.stringEnd_ok', 'PyDBML.C07.advance_suffix', 'PyDBML.C07.skipWs_suffix',
+            'PyDBML.Fuel.many_fuel_irrelevant', 'PyDBML.Fuel.manyF_any_fuel', 'PyDBML.Fuel.document_fuel_irrelevant']
+MODULES = ['PyDBMLProofs.Props.C07', 'PyDBMLProofs.Fuel']
 
 FAULTS = ['col_no_type', 'unknown_setting', 'unknown_index_type', 'bad_operator', 'bad_action', 'bad_colour', 'prop_when_off']
 BRACKETS = ['{', '}', '[', ']', '(', ')']
